@@ -18,7 +18,7 @@ import (
 	"verif/harness/ref"
 )
 
-func TestMain(m *testing.M) { h.Main(m, selfTest, dispatchSelfTest) }
+func TestMain(m *testing.M) { h.Main(m, selfTest, selfTestPeriodic, dispatchSelfTest) }
 
 // ---------------------------------------------------------------- AEADs under test
 
@@ -77,6 +77,8 @@ var expectedTypes = map[string][2]string{ // cfg -> {block, native GCM}
 	"default": {"*sm4.sm4CipherGCM", "*sm4.gcmAsm"},
 	"noavx2":  {"*sm4.sm4CipherGCM", "*sm4.gcmAsm"},
 	"noavx":   {"*sm4.sm4CipherGCM", "*sm4.gcmAsm"},
+	"avxoff":  {"*sm4.sm4CipherGCM", "*sm4.gcmAsm"},
+	"aesni1":  {"*sm4.sm4CipherGCM", "*sm4.gcmAsm"},
 	"noclmul": {"*sm4.sm4CipherAsm", "*sm4.gcm"},
 	"noaes":   {"*sm4.sm4Cipher", "*cipher.gcm"},
 	"purego":  {"*sm4.sm4Cipher", "*cipher.gcm"},
